@@ -113,12 +113,22 @@ def main(argv=None):
     cases = plan.get("cases", [])
     jobs = plan.get("jobs", [])
     monitors = plan.get("monitors", [prop])
+    # phase 1: unit jobs that need no grid run together with the cases; jobs that compare
+    # cases ("needs_cases") run in phase 2
+    late = [j for j in jobs if j.get("module", "").endswith(("pair_compare",)) or j.get("needs_cases")]
+    early = [j for j in jobs if j not in late]
     work = [(orchestrate.run_case, (s, monitors), {"use_cache": not args.no_cache}) for s in cases]
-    work += [(orchestrate.run_job, (j,), {"use_cache": not args.no_cache}) for j in jobs]
-    # longest first
+    work += [(orchestrate.run_job, (j,), {"use_cache": not args.no_cache}) for j in early]
     results = orchestrate.run_many(work, jobs=args.jobs)
     case_res = results[: len(cases)]
     job_res = results[len(cases) :]
+    if late:
+        # a pair job's cache key must depend on the cases it reads
+        for j in late:
+            j.setdefault("args", {})["_case_keys"] = [orchestrate.case_key(j["args"][k]) for k in ("a", "b") if isinstance(j["args"].get(k), dict)]
+        job_res += orchestrate.run_many([(orchestrate.run_job, (j,), {"use_cache": not args.no_cache}) for j in late], jobs=args.jobs)
+    jobs = early + late
+    results = case_res + job_res
 
     known = load_known(prop)
     records = []  # (source, record)
